@@ -238,6 +238,10 @@ func TestWorker(t *testing.T) {
 	counted := 0
 	replayDir := os.Getenv("VERIF_REPLAY_DIR")
 	repoTree := os.Getenv("VERIF_REPO_TREE")
+	curFile := os.Getenv("VERIF_CURFILE")
+	if curFile != "" {
+		defer os.Remove(curFile)
+	}
 
 	start := time.Now()
 	sum := &workerSummary{Property: id, Fired: map[string]int{}, Probes: map[string]int{}, DontCare: map[string]int{},
@@ -264,6 +268,11 @@ func TestWorker(t *testing.T) {
 		g := NewRng(seed, uint64(run), 0)
 		plan := prof.Gen(g, tier)
 		plan.Property, plan.Profile, plan.Seed, plan.Run = prof.ID, prof.Name, seed, uint64(run)
+		if curFile != "" {
+			// should the process die inside this run (a fatal error is not a panic: nothing can catch it), the driver finds the plan here
+			_ = os.WriteFile(curFile, mustJSON(&replayFile{Plan: plan, RepoTree: repoTree,
+				Violation: &Violation{Class: "fatal", Signature: prof.ID + "/fatal/process-died", Expected: "a result or an error", Observed: "the process died"}}), 0o644)
+		}
 		res := runPlan(t, prof, plan)
 		sum.Runs++
 		addCounts(sum.Fired, res.Fired)
@@ -342,6 +351,9 @@ func TestWorker(t *testing.T) {
 		sum.Lattice = append(sum.Lattice, lp)
 	}
 	sum.WallS = time.Since(start).Seconds()
+	if curFile != "" {
+		_ = os.Remove(curFile)
+	}
 	addCounts(sum.Fired, poolSeamCounts())
 	b, _ := json.Marshal(sum)
 	if out := os.Getenv("VERIF_OUT"); out != "" {
